@@ -146,6 +146,14 @@ struct Model {
 					*why = "index beyond a scalar";
 					return FAIL;
 				}
+				if (o->contains("sv")) {
+					// bound to an application variable: the value is stored there, the option itself holds none
+					if (self)
+						self_repr = (*o)["sv"].get<std::string>();
+					(*o)["sv"] = self ? self_repr : repr_typed(ty, newv);
+					(*o)["M"] = true;
+					return OK;
+				}
 				(*o)["v"] = json::array({self ? self_repr : repr_typed(ty, newv)});
 				(*o)["M"] = true;
 				(*o)["R"] = false;
@@ -213,7 +221,7 @@ struct Model {
 				return FAIL;
 			}
 			bool list = ((*o)["fl"].get<int>() & F_LIST) != 0;
-			if (!list && n > 1)
+			if ((!list && n > 1) || o->contains("sv"))
 				return DONTCARE;
 			json nv = json::array();
 			for (auto &v : st["vals"]) {
@@ -354,6 +362,10 @@ inline bool same_observable(const json &a, const json &b, std::string *diff, con
 					return false;
 			}
 		} else {
+			if (x.contains("sv") != y.contains("sv") || (x.contains("sv") && x["sv"] != y["sv"])) {
+				*diff = n + ": value in the application variable " + (x.contains("sv") ? x["sv"].dump() : "-") + " vs " + (y.contains("sv") ? y["sv"].dump() : "-");
+				return false;
+			}
 			if (x["v"] != y["v"]) {
 				*diff = n + ": values " + x["v"].dump() + " vs " + y["v"].dump();
 				return false;
